@@ -743,6 +743,15 @@ func runC14(c *Ctx) {
 					if !ok {
 						bad = fmt.Sprintf("U+%04X is escaped with %d hex digits, which decodeUTF8AddrXtext rejects %s", v, k, why)
 					}
+					// ... and the tokenizer in front of the callback matches an escape of that many digits at all: the
+					// repetition of the hex class in eUOrDCharRe ({1,5} cuts off the six-digit code points of plane 16)
+					if ok2 {
+						if mn, mx, found := hexRepeatBounds(utfPat); !found {
+							bad = "the \\x{HEX} alternative of eUOrDCharRe was not recognised"
+						} else if k < mn || (mx >= 0 && k > mx) {
+							bad = fmt.Sprintf("U+%04X is escaped with %d hex digits, but eUOrDCharRe only matches escapes of %d..%d digits: the backslash is then taken for a disallowed character and the value refused", v, k, mn, mx)
+						}
+					}
 				}
 				if bad != "" {
 					break
@@ -1049,4 +1058,57 @@ func ruleSetOptionsRendered(c *Ctx) {
 		R.Ob(x.fn+"/"+strings.TrimSpace(x.key)+" written when "+strings.Join(x.H, "&&"), c.P.Pos(f.Pos()), len(v) == 0 && len(writes) > 0, d)
 	}
 	R.Ob("option rows/checked", "-", n >= 10, fmt.Sprintf("%d rows", n))
+}
+
+// hexRepeatBounds: the repetition bounds (max -1 = unbounded) of the hex-digit class inside the "\x{" HEX "}"
+// alternative of the pattern.
+func hexRepeatBounds(pat string) (min, max int, found bool) {
+	re, err := syntax.Parse(pat, syntax.Perl)
+	if err != nil {
+		return 0, 0, false
+	}
+	var walk func(r *syntax.Regexp)
+	walk = func(r *syntax.Regexp) {
+		if found {
+			return
+		}
+		if r.Op == syntax.OpConcat {
+			sawIntro := false
+			for _, sub := range r.Sub {
+				if sub.Op == syntax.OpLiteral && strings.HasSuffix(string(sub.Rune), "x{") || sub.Op == syntax.OpLiteral && strings.HasSuffix(string(sub.Rune), "x") {
+					sawIntro = true
+					continue
+				}
+				if !sawIntro {
+					continue
+				}
+				switch sub.Op {
+				case syntax.OpPlus:
+					if sub.Sub[0].Op == syntax.OpCharClass {
+						min, max, found = 1, -1, true
+					}
+				case syntax.OpStar:
+					if sub.Sub[0].Op == syntax.OpCharClass {
+						min, max, found = 0, -1, true
+					}
+				case syntax.OpRepeat:
+					if sub.Sub[0].Op == syntax.OpCharClass {
+						min, max, found = sub.Min, sub.Max, true
+					}
+				case syntax.OpQuest:
+					if sub.Sub[0].Op == syntax.OpCharClass {
+						min, max, found = 0, 1, true
+					}
+				}
+				if found {
+					return
+				}
+			}
+		}
+		for _, sub := range r.Sub {
+			walk(sub)
+		}
+	}
+	walk(re)
+	return
 }
